@@ -26,6 +26,9 @@ func loadSpecs() (*Specs, error) {
 		}
 	}
 	cf := filepath.Join(repoDir, "contracts_verif.go")
+	if o := os.Getenv("GOVC_CONTRACTS"); o != "" {
+		cf = o // development only: read the master copy before it is synced into /repo
+	}
 	if _, err := os.Stat(cf); err == nil {
 		if err := sp.loadFile(cf, true); err != nil {
 			return nil, err
@@ -81,7 +84,7 @@ func main() {
 // solveAll discharges obligations in parallel.
 func solveAll(obls []*Oblig, budget int) {
 	var wg sync.WaitGroup
-	sem := make(chan struct{}, 16)
+	sem := make(chan struct{}, 48)
 	for _, o := range obls {
 		o := o
 		if o.Res.Status != "" {
